@@ -7,6 +7,13 @@ CLAIMED = {
  'C09': dict(tech="TLC: exhaustive bit-level model of the padding machine (all bit strings <= 12 bits, all call sequences) + every call history from a TLC scenario model replayed on the real padding objects, each step trace-validated by TLC against the byte-level spec",
              text="Specification model-checked exhaustively within small bounds (all 8 schemes; invariants FullBlocks, FinalIsMsgThenPad, Minimal, UnpadInverts, CounterIdle, AfterFinalRefuses; byte-level spec proved equal to the bit-level one on 71k cases); implementation bound by trace validation of every TLC-generated call history (depth 3/4) and a complete length grid (scheme x block size x 0..3 blocks x every residue (<=16-byte blocks) / boundary residues x L mod 8), every yielded block, per-block bit counter, pad counter, flag and remove() result judged by TLC.  Structure is exhaustive, message content is sampled.",
              ref="DESIGN.md section 7 C09"),
+
+ 'C07': dict(tech="TLC: spec theorems on the bit-sequence model (MC_BitVec) + TLC trace validation of every recorded conversion of the real Bits class, exhaustive over sizes <= 9/12",
+             text="Every value of every size 0..9 (quick) / 0..12 + samples to 16 (thorough) goes through every constructor, conversion and round trip; every 1-byte string and class pairs of longer strings under every bit order; unpack/pack for every byte count 1..40 in both endiannesses; wide vectors to 2048 bits sampled at word boundaries.  Each recorded result is judged by TLC against base/BitVec (whose conversion laws are model-checked exhaustively for widths <= 4).",
+             ref="DESIGN.md section 7 C07"),
+ 'C08': dict(tech="TLC: exhaustive spec theorems (sequence model = modular arithmetic, algebraic laws, frame conditions) + TLC trace validation of all operand pairs of widths <= 4/6 under every operator, every index expression, every single and two-step mutation, random mutation histories, wide samples",
+             text="Finite space enumerated completely: all operand pairs of widths 0..4 (quick) / 0..6 (thorough) in Bits/Bits, Bits/int and int/Bits forms under & | ^ + - * // hd, all unary ops, shifts, rotations, splits, extensions; every int/slice/list index expression on widths <= 4/5 read and written with fitting values; every two-step mutation history on widths <= 2/3 (hidden mask state) and seeded longer histories with aliasing checks; widths to 2048 sampled.  TLC judges each event against base/BitVec.",
+             ref="DESIGN.md section 7 C08"),
 }
 PENDING = "check not built yet in this tree (specification modules are being written; see DESIGN.md section 12 build order) - not claimed until its quick command runs clean"
 def main():
